@@ -188,17 +188,24 @@ def connected (c : Conn) (k : ConnKind) : Conn × List Effect := (connectedM k).
 
 def resetSeq (c : Conn) : Conn × List Effect := resetSeqNum.run c
 
-/-- inner loop of `socket_read_task` (l.317-335) over the frames decoded from one buffer: stops when
-the connection is in a disconnected state (the remaining frames STAY in `_msg_buffer` – returned as
-third component) and when `_process_message` lets an exception escape (logged by the task; the rest
-of the buffer is processed after the next read). -/
+/-- an exception escaped the entry point -/
+def hasRaised (es : List Effect) : Bool := es.any fun e => match e with | .raised _ => true | _ => false
+
+/-- inner loop of `socket_read_task` over the frames decoded from ONE `read()` chunk (plus what an
+earlier read left in `_msg_buffer`).  A frame whose processing ends in a disconnected state ends the
+loop and the remaining frames are GONE: `disconnect()` has cleared `_msg_buffer` (fix 9d91921) – bytes of
+a connection that was dropped never reach the next connection of the same object.  When
+`_process_message` lets an exception escape, the task logs it and the rest of the buffer (third
+component) is processed after the next read.  (Started in a disconnected state – no `disconnect()` ran,
+the code cannot even read then – nothing is processed and everything stays.) -/
 def feed (sr : Msg → Bool) (env : Env) : Conn → List Msg → Conn × List Effect × List Msg
   | c, [] => (c, [], [])
   | c, m :: rest =>
     if c.state ≤ st_DISCONNECTED_BROKEN_CONN then (c, [], m :: rest)
     else
       let (c1, e1) := recv sr env c m
-      if e1.any (fun e => match e with | .raised _ => true | _ => false) then (c1, e1, rest)
+      if hasRaised e1 then (c1, e1, rest)
+      else if c1.state ≤ st_DISCONNECTED_BROKEN_CONN then (c1, e1, [])
       else
         let (c2, e2, r) := feed sr env c1 rest
         (c2, e1 ++ e2, r)
